@@ -17,6 +17,8 @@ type H264Cache struct {
 	cacheGop bool
 	l        sync.RWMutex
 	gop      queue.Queue
+	hasKey   bool        // 已见过关键帧
+	keyTS    uint32      // 最近关键帧的时间戳
 	sps      *rtp.Packet // 序列参数集包
 	pps      *rtp.Packet // 图像参数集包
 }
@@ -54,6 +56,14 @@ func (cache *H264Cache) CachePack(pack Pack) bool {
 		return false
 	}
 
+	if islice { // 多 slice 关键帧：同一时间戳的后续分片不是新的关键帧起点
+		if cache.hasKey && cache.keyTS == rtppack.Timestamp {
+			islice = false
+		} else {
+			cache.hasKey, cache.keyTS = true, rtppack.Timestamp
+		}
+	}
+
 	if cache.cacheGop { // 需要缓存 GOP
 		if islice { // 关键帧
 			cache.gop.Reset()
@@ -73,6 +83,7 @@ func (cache *H264Cache) Reset() {
 	cache.sps = nil
 	cache.pps = nil
 	cache.gop.Reset()
+	cache.hasKey = false
 }
 
 // PushTo 入列到指定的队列
